@@ -5,7 +5,7 @@ from engine import tlc
 from engine.core import shard_map
 from engine.tlc import MachineryError
 
-BITS = {1: "Total", 2: "SyntaxFbIff", 4: "LineIs", 8: "BlankReported", 16: "TreeStored", 32: "TracebackLineIs"}
+BITS = {1: "Total", 2: "SyntaxFbIff", 4: "LineIs", 8: "BlankReported", 16: "TreeStored", 32: "TracebackLineIs", 64: "QuotedLineIs"}
 
 
 def run(prop, tier, seed, ctx):
